@@ -49,6 +49,11 @@ var KillRequests struct {
 }
 
 func sigOf(prop, cfg, rule string, devs []string) string {
+	if strings.Contains(rule, ":blocksync-") {
+		// the failing input class is the kind of commit offered to the syncing node, whatever schedule
+		// produced the votes it is assembled from
+		return fmt.Sprintf("%s|oracle=%s", prop, strings.TrimPrefix(rule, prop+":"))
+	}
 	u := map[string]bool{}
 	for _, d := range devs {
 		u[d] = true
